@@ -31,21 +31,41 @@ ArchiveCase(c) ==
      mkinds |-> <<"flip0", "flip7", "set00", "setff">>,
      perbyte |-> IF Thorough THEN 2 ELSE 1,   \* how many of the four kinds per offset (rotating with offset + seed)
      stride |-> 1,
-     zero4 |-> TRUE, swap |-> TRUE, big |-> 0, sweep |-> "all"]
+     zero4 |-> TRUE, swap |-> TRUE, big |-> 0, sweep |-> "all", prefix |-> 0]
+
+\* archive placement: the same sweep over a signed V1 archive / a V4 archive that starts behind a 512- or 1024-byte prefix
+\* ("signed range / digests = the whole archive wherever it starts")
+Placed(c, at) == [ArchiveCase(c) EXCEPT !.prefix = at]
+PlacedCases ==
+    {Placed([ver |-> 1, crc |-> FALSE, attrs |-> "none", enc |-> FALSE, comp |-> TRUE, signed |-> TRUE], at) : at \in {512, 1024}}
+    \cup {Placed([ver |-> 4, crc |-> FALSE, attrs |-> "none", enc |-> FALSE, comp |-> FALSE, signed |-> FALSE], 512)}
 
 \* signed archives larger than one 64 KiB digest unit whose (signature) entry starts k bytes before the unit boundary
 \* (k = 1, 36, 71: straddling; 300: inside the first unit); only the neighbourhood of the entry is altered, all kinds
 BigSigned(k) ==
     [kind |-> "archive", ver |-> 1, crc |-> FALSE, attrs |-> "none", enc |-> FALSE, comp |-> TRUE, signed |-> TRUE,
      mkinds |-> <<"flip0", "flip7", "set00", "setff">>, perbyte |-> 4, stride |-> 1,
-     zero4 |-> TRUE, swap |-> FALSE, big |-> k, sweep |-> "around_sig"]
+     zero4 |-> TRUE, swap |-> FALSE, big |-> k, sweep |-> "around_sig", prefix |-> 0]
 BigCases == {BigSigned(k) : k \in {1, 36, 71, 300}}
 
 \* intact => verifies, for tables around / above the 0x4000-byte raw chunk (block table = 16 bytes per file)
-IntactCases == {[kind |-> "intact_only", ver |-> 4, attrs |-> a, nfiles |-> n]
-                  : a \in {"none"}, n \in {1022, 1023, 1024, 1025, 1100, 2049}}
-               \cup {[kind |-> "intact_only", ver |-> 4, attrs |-> "full", nfiles |-> 1100],
-                     [kind |-> "intact_only", ver |-> 2, attrs |-> "crc32", nfiles |-> 1025]}
+IntactBase == [kind |-> "intact_only", ver |-> 4, attrs |-> "none", crc |-> FALSE, enc |-> FALSE, comp |-> FALSE,
+               ctables |-> FALSE, lens |-> FALSE, prefix |-> 0, nfiles |-> 1]
+IntactCases ==
+    \* (1) tables around / above the 0x4000-byte raw chunk (block table = 16 bytes per file)
+    {[IntactBase EXCEPT !.nfiles = n] : n \in {1022, 1023, 1024, 1025, 1100, 2049}}
+    \cup {[IntactBase EXCEPT !.attrs = "full", !.crc = TRUE, !.nfiles = 1100],
+          [IntactBase EXCEPT !.ver = 2, !.attrs = "crc32", !.crc = TRUE, !.nfiles = 1025]}
+    \* (2) HET/BET tables: compress_tables on/off x file counts where the tables do / do not shrink, V3 and V4,
+    \*     at offset 0 and behind a prefix: every digest valid, every table loaded
+    \cup {[IntactBase EXCEPT !.ver = v, !.ctables = ct, !.nfiles = n, !.prefix = at]
+            : v \in {3, 4}, ct \in BOOLEAN, n \in {1, 4, 23, 60, 150}, at \in {0}}
+    \cup {[IntactBase EXCEPT !.ver = 4, !.ctables = ct, !.nfiles = n, !.prefix = at, !.attrs = "full", !.crc = TRUE]
+            : ct \in BOOLEAN, n \in {4, 60}, at \in {512, 1024}}
+    \* (3) content-length classes (EMPTY, 1, 2, sector-1, sector, sector+1, ...) in every attributes configuration:
+    \*     every file reads back and passes SFileVerifyFile SECTOR_CRC / FILE_CRC / FILE_MD5
+    \cup {[IntactBase EXCEPT !.ver = v, !.attrs = a, !.crc = cr, !.enc = ec, !.comp = ec, !.lens = TRUE, !.nfiles = 2]
+            : v \in 1..4, a \in {"none", "crc32", "full"}, cr \in BOOLEAN, ec \in BOOLEAN}
 
 \* signatures of many distinct messages verify (about 1 RSA value in 256 has a zero top byte and needs left padding:
 \* P(no such value among n messages) = (255/256)^n : n = 2000 -> 4.0e-4, n = 8000 -> 2.5e-14)
@@ -53,9 +73,10 @@ SigManyCases == {[kind |-> "sigmany", count |-> IF Thorough THEN 8000 ELSE 2000]
 \* the signature area at every alignment relative to the 64 KiB digest unit (74 placements incl. all 71 straddling ones)
 SigAlignCases == {[kind |-> "sigalign", unit |-> 65536, after |-> 128]}
 
-SigCases == {[kind |-> "sigbytes", len |-> l, allbits |-> Thorough] : l \in IF Thorough THEN {1, 64, 300, 1000} ELSE {64, 300}}
+SigCases == {[kind |-> "sigbytes", len |-> l, allbits |-> Thorough, start |-> st]
+               : l \in IF Thorough THEN {1, 64, 300, 1000} ELSE {64, 300}, st \in {0, 512}}
 
-Cases == SetToSeq({ArchiveCase(c) : c \in Chosen}) \o SetToSeq(BigCases) \o SetToSeq(SigCases)
+Cases == SetToSeq({ArchiveCase(c) : c \in Chosen}) \o SetToSeq(BigCases) \o SetToSeq(PlacedCases) \o SetToSeq(SigCases)
          \o SetToSeq(IntactCases) \o SetToSeq(SigManyCases) \o SetToSeq(SigAlignCases)
 ASSUME ndJsonSerialize(IOEnv.CASES, Cases)
 ASSUME PrintT(<<"GENERATED", Len(Cases), "archives", Cardinality(Chosen)>>)
